@@ -102,9 +102,21 @@ CHECKS = {
             "between two elements, whitespace-only indentation is accepted (the converter pretty-prints by design). Namespace declarations "
             "are compared as bindings in scope.",
             "DESIGN.md section 4 C12"),
+    "C13": ("model_checking",
+            "explicit reference model of `ucg test`; every model trace replayed against the real binary (E3) + explicit-state search over the "
+            "real Environment with a differential invariant (E2)",
+            "Model: file = sequence of statements of 9 kinds, verdict = builds and all evaluated assertions ok, log = one line per evaluated "
+            "assertion, invocation = sequence of files, exit 0 iff all pass. Replayed: every file of 0..4 (thorough 0..5) statements over 6 "
+            "kinds alone (1 555 files) plus the statically rejected kinds to length 2; every ordered sequence of 1..3 (1..4) distinct files "
+            "of 7 representative files as arguments and every 2-/3-subset through -r; per file the verdict line, the OK / NOT OK line counts "
+            "of its own section, its RESULTS line, and the exit status are compared. E2: all 399 (2 800) histories of 1..3 (1..4) builds in "
+            "one in-process Environment, last result compared with the same build in the initial state.",
+            "The log is only checked for files that build (a file that stops with an evaluation error prints no log by design of main.rs). "
+            "A statically detectable malformed assertion may be reported as a build error instead of a failing assertion; both are FAIL.",
+            "DESIGN.md section 4 C13"),
 }
 
-CLAIMED = ["C01", "C02", "C03", "C04", "C05", "C07", "C10", "C11", "C12"]
+CLAIMED = ["C01", "C02", "C03", "C04", "C05", "C07", "C10", "C11", "C12", "C13"]
 
 NOT_YET = "check not built yet in this round; design in DESIGN.md section 4 (bounded-exhaustive enumeration applies)"
 
